@@ -404,7 +404,9 @@ func Supervise(o SuperOpts) int {
 		if len(msg) > 600 {
 			msg = msg[:600] + "…"
 		}
-		fmt.Printf("violation kind=%s batch=%s %s\n  %s\n", v.Kind, v.Batch, v.Key, strings.ReplaceAll(msg, "\n", "\n  "))
+		// printed lines are valid UTF-8 (a cut may fall inside a multi-byte character)
+		msg = strings.ToValidUTF8(msg, "?")
+		fmt.Printf("violation kind=%s batch=%s %s\n  %s\n", v.Kind, v.Batch, strings.ToValidUTF8(v.Key, "?"), strings.ReplaceAll(msg, "\n", "\n  "))
 		fmt.Printf("VIOLATION property=%s replay=%s\n", o.Prop, path)
 		nprinted++
 	}
@@ -415,7 +417,7 @@ func Supervise(o SuperOpts) int {
 		return 2
 	}
 	for _, n := range agg.InconcNotes {
-		fmt.Println("INCONCLUSIVE:", n)
+		fmt.Println("INCONCLUSIVE:", strings.ToValidUTF8(n, "?"))
 	}
 	fmt.Printf("%s %s seed=%d: evaluations=%d distinct_nontrivial=%d violations=%d (known %d) inconclusive=%d batches=%d died=%d wall=%.1fs\n",
 		o.Prop, o.Tier, o.Seed, agg.Evals, agg.DistinctNontrivial(), len(fresh), len(agg.Violations)-len(fresh), agg.Inconclusive, agg.Batches, agg.Died, wall)
@@ -432,7 +434,7 @@ func Supervise(o SuperOpts) int {
 	}
 	if len(infra) > 0 {
 		for _, s := range infra {
-			fmt.Println("INFRA:", s)
+			fmt.Println("INFRA:", strings.ToValidUTF8(s, "?"))
 		}
 		return 2
 	}
